@@ -45,6 +45,12 @@ def other(pid, text, tech, ref, note, engine):
                 evidence_file='evidence/%s.json' % pid, replay_cmd_template='cat {path}', engine=engine,
                 level_claimed=dict(category='model_checking', text=text, design_ref=ref), level_note=note, technique=tech)
 
+SUITE_TECH = ('; plus trace validation of the repository\'s own self_test (all test cases) and thread_terror built with the guarded hooks against the '
+              'identity-level spec Generic.tla (list discipline, selection rule, counting / saturation, end-of-life verdicts, report kinds and severities)')
+for c in CHECKS:
+    if c['property_id'] in ('C01', 'C02', 'C03', 'C04', 'C05', 'C07', 'C14', 'C15'):
+        c['technique'] += SUITE_TECH
+
 CHECKS += [
     other('C10', 'the mathematical predicate of every scalar matcher / combinator is a recursive TLA+ operator (Matchers.tla); TLC checks its algebraic laws over a bounded term universe '
                  'and judges the verdict of the REAL matcher for every catalogue term (all leaves typed and duck-typed, !, *, any_of/all_of/none_of with 0..3 operands, MEMBER_IS, strings, re) on every subject value, each through a real ALLOW_CALL',
@@ -104,14 +110,16 @@ def main():
         version=1,
         setup_cmd='python3 harness/setup.py',
         hooks=dict(guard='ROLLBEAR_TROMPELOEIL_VERIF',
-                   enable='-DROLLBEAR_TROMPELOEIL_VERIF (together with -DTROMPELOEIL_CUSTOM_RECURSIVE_MUTEX) on the C12 concurrent driver build only (harness/lib.py build_conc); every other check uses the public API without hooks',
+                   enable='-DROLLBEAR_TROMPELOEIL_VERIF on two builds only: the C12 concurrent driver (together with -DTROMPELOEIL_CUSTOM_RECURSIVE_MUTEX; harness/lib.py build_conc) and the repository\'s own test programs test/compiling_tests*.cpp + test/thread_terror.cpp linked with harness/suite/sink.cpp (harness/lib.py build_suite; trace validated against spec/Generic.tla); every other driver uses the public API without hooks',
                    baseline_off_cmd='cmake -G Ninja -S /repo -B /repo/_build -DCMAKE_BUILD_TYPE=RelWithDebInfo -DCMAKE_CXX_FLAGS=-Wno-error -DTROMPELOEIL_BUILD_TESTS=yes && cmake --build /repo/_build && ctest --test-dir /repo/_build -j8 --timeout 900 --output-junit /repo/_build/junit.xml',
-                   source_commits=['dd58f2e893301b4b4e053f610c645850221b171e'], add_only=True),
+                   source_commits=['dd58f2e893301b4b4e053f610c645850221b171e', '451f2fa2aa2672beacf4d08dcf2e1e95d92c1aa6'], add_only=True),
         engines=[dict(name='tla-binding', path='spec/Binding.tla', serves_properties=['C09'], kind_free_text='TLA+ store model + expected observations for a generated program family'),
                  dict(name='tla-coro', path='spec/Coro.tla', serves_properties=['C20'], kind_free_text='TLA+ spec + TLC model checking + trace validation of mocked coroutines (C++20 driver)'),
                  dict(name='tla-clauses', path='spec/Clauses.tla', serves_properties=['C19'], kind_free_text='TLA+ typestate machine, TLC-generated transition cover compiled by g++'),
                  dict(name='tla-matchers', path='spec/Matchers.tla', serves_properties=['C10', 'C11'], kind_free_text='TLA+ oracle + TLC trace validation of real matcher verdicts'),
                  dict(name='tla-printing', path='spec/Printing.tla', serves_properties=['C18'], kind_free_text='TLA+ oracle + TLC trace validation of real print() output'),
+                 dict(name='tla-generic', path='spec/Generic.tla', serves_properties=['C01', 'C02', 'C03', 'C04', 'C05', 'C07', 'C14', 'C15'],
+                      kind_free_text='TLA+ spec of the expectation machine at object-identity level + TLC trace validation of the repository\'s own self_test / thread_terror built with the guarded hooks'),
                  dict(name='tla-core', path='spec/Core.tla', serves_properties=[c['property_id'] for c in CHECKS if c['engine'] == 'tla-core'],
                       kind_free_text='TLA+ spec + TLC model checking + trace validation of the real library (harness/seq driver)')],
         checks=CHECKS,
